@@ -8,6 +8,7 @@
 -/
 import AioftpModel.Lemmas.Dispatch
 import AioftpModel.Lemmas.Session
+import AioftpModel.Lemmas.Logs
 
 namespace C05
 open Model Model.Session Py Generated
@@ -435,6 +436,35 @@ meaning of several lines that arrive in one segment rests on how the dispatcher 
 
 section dispatch
 open Model.Dispatch
+
+/-! ## white space before CRLF is not part of the command -/
+
+/-- **fact_parse_command_shape**: as regenerated from `server.py`, `parse_command` is decode, `rstrip()` without an
+    argument (all white space), `partition(' ')`, `lower()` of the first word - the text of `parseCommand` -/
+theorem fact_parse_command_shape : Generated.parseCommandRstripPartitionLower = true := by decide
+
+/-- **trailing_white_space_not_part_of_command**: for EVERY line and EVERY run of white space (blank, TAB, CR, VT, FF,
+    FS..US, NEL, NBSP, the Unicode spaces ...), the line with that run before CRLF parses to the same verb and the
+    same argument as the line without it -/
+theorem trailing_white_space_not_part_of_command (raw ws : Str) (h : ∀ c ∈ ws, isSpace c = true) :
+    parseCommand (raw ++ ws) = parseCommand raw := by
+  unfold parseCommand
+  rw [Model.Logs.rstrip_append_of_nil raw ws ((Model.Logs.rstrip_eq_nil_iff ws).2 h)]
+
+/-- … and therefore gets the same replies and leaves the same session state and tree, whatever they were -/
+theorem trailing_white_space_same_step (cfg : Cfg) (w : World) (s : SState) (raw ws : Str) (payload : Bytes)
+    (h : ∀ c ∈ ws, isSpace c = true) :
+    step cfg w s (.line (raw ++ ws) payload) = step cfg w s (.line raw payload) := by
+  have h0 : step0 cfg w s (.line (raw ++ ws) payload) = step0 cfg w s (.line raw payload) := by
+    show dispatch cfg w s (parseCommand (raw ++ ws)).1 (parseCommand (raw ++ ws)).2 payload
+       = dispatch cfg w s (parseCommand raw).1 (parseCommand raw).2 payload
+    rw [trailing_white_space_not_part_of_command raw ws h]
+  unfold Session.step
+  rw [h0]
+
+example : parseCommand "TYPE I \t\x0c".toList = ("type".toList, "I".toList) := by decide +kernel
+example : ∀ c ∈ " \t\x0c\u2003".toList, isSpace c = true := by decide +kernel
+
 
 /-- obligation over the regenerated source -/
 theorem fact_one_command_at_a_time : Generated.dispatcherOneCommandAtATime = true := by decide
